@@ -251,7 +251,7 @@ func (g *G) Bundle(nFiles, nTmpl int) *Program {
 	for i := nTmpl - 1; i >= 0; i-- {
 		f, t := slots[i].f, slots[i].t
 		g.curFile = f
-		g.scope, g.loops, g.marks = nil, nil, nil
+		g.scope, g.loops, g.marks, g.echo = nil, nil, nil, nil
 		if g.O.Autoescape {
 			t.Autoescape = g.pick([]string{"", "", "", "true", "false", "contextual"})
 		}
